@@ -710,6 +710,15 @@ class BaseTransform:
          [  0.   0. 120.]
          [  0.   0. 135.]]
         """
+        # angles of shape (n,) about a single axis are n rotations (vector input); scipy >= 1.17
+        # reads a 1-D array as ONE rotation about len(seq) axes and refuses it for n != 1
+        if isinstance(seq, str) and len(seq) == 1:
+            try:
+                one_dim = np.ndim(angle) == 1
+            except ValueError:  # ragged input is left to scipy's own check
+                one_dim = False
+            if one_dim:
+                angle = np.reshape(angle, (-1, 1))
         rot = R.from_euler(seq, angle, degrees=degrees)
         return self.rotate(rot, anchor=anchor, start=start)
 
